@@ -756,7 +756,9 @@ def parse_template(path):
                     raise Undecided('%s: shellcheck inside extract block' % origin)
                 flush()
                 parts = [p_.strip() for p_ in d[len('shellcheck '):].split(' :: ')]
-                chunks.append(('shellcheck', {'file': parts[0], 'path': parts[1:]}))
+                sc_ = {'file': parts[0], 'path': parts[1:], 'proof': []}
+                chunks.append(('shellcheck', sc_))
+                target = sc_['proof']   # optional `//@|` lines: proof hints placed after the call (lemma invocations only)
                 continue
             if d.startswith('extract '):
                 flush()
@@ -1484,7 +1486,10 @@ def render_shellcheck(sc):
         if seen and ln.strip() and '//#' not in ln:
             ln = ln + ' //# ' + label
         out.append(ln)
-    text = '    /// shell contract of vx/%s :: %s, proved from the function verified in this unit\n    %s\n    { %s }\n' % (sc['file'], ' :: '.join(sc['path']), '\n'.join(out).strip(), call)
+    body = call
+    if sc.get('proof'):
+        body = 'let __r = %s;\n        proof {\n%s\n        }\n        __r' % (call, '\n'.join(sc['proof']))
+    text = '    /// shell contract of vx/%s :: %s, proved from the function verified in this unit\n    %s\n    { %s }\n' % (sc['file'], ' :: '.join(sc['path']), '\n'.join(out).strip(), body)
     meta = {'name': name + '__shellcheck', 'kind': 'shellcheck', 'file': 'vx/' + sc['file'], 'path': ' :: '.join(sc['path']), 'line': src[:toks[item.start_tok][2]].count('\n') + 1,
             'sha256': hashlib.sha256(src[toks[item.start_tok][2]:toks[item.end_tok][3]].encode()).hexdigest()[:16], 'label': label}
     return text, meta
